@@ -71,6 +71,7 @@ def parseOp (s : String) : Option Op :=
         | [b, x, y] => do pure ((← b.toNat?), (← parseSpec? x), (← parseSpec? y))
         | _ => none) l
       pure (.appendBondObjs ps)
+  | ["vlocal"] => some .viewLocal
   | ["mkview", l] => do pure (.mkView (← parseList? parseRef? l))
   | ["vread", l] => do pure (.viewRead (← parseList? parseAtomId? l))
   | ["vwrite", l, ps] => do pure (.viewWrite (← parseList? parseAtomId? l) (← parseList? (·.toNat?) ps))
